@@ -33,7 +33,7 @@ L1 == {[k |-> kd, s |-> S] : kd \in SetKinds, S \in SubsetsUpTo(L0, 3)}       \*
       \cup {[k |-> "Product", q |-> q] : q \in SeqsUpTo({W("a"), W("b")}, 2)}
       \cup {[k |-> "ImageExtension", i |-> i, q |-> <<W("a"), W("b")>>] : i \in 0..2}
       \cup {[k |-> kd, a |-> a, b |-> b] : kd \in {"Inheritance", "DifferenceExtension"}, a \in {W("a"), W("b")}, b \in {W("a"), W("b")}}
-M1s == Sample(L1, IF TIER = "thorough" THEN 2 ELSE 5, SEED) \cup {W("a")}
+M1s == Sample(L1, IF TIER = "thorough" THEN 3 ELSE 5, SEED) \cup {W("a")}
 L2 == {[k |-> kd, s |-> S] : kd \in {"SetExtension", "Disjunction", "ConjunctionParallel"}, S \in SubsetsUpTo(M1s, 2)}
       \cup {[k |-> kd, p |-> pr] : kd \in {"Similarity", "EquivalenceConcurrent"}, pr \in PairsUnordered(M1s)}
       \cup {[k |-> "Implication", a |-> a, b |-> W("c")] : a \in M1s} \cup {[k |-> "ConjunctionSequential", q |-> <<a, W("c")>>] : a \in M1s}
@@ -65,7 +65,7 @@ HashTwins == UNION {{[k |-> o, p |-> {Twin(t1), Twin(t2)}] : o \in SymStmtKinds}
 SameText == LET A1 == {W("1"), INT("1"), IV("1"), OP("1"), QV("1")} IN
             {[k |-> kd, p |-> pr] : kd \in SymStmtKinds, pr \in PairsUnordered(A1)} \cup {[k |-> kd, s |-> S] : kd \in {"SetExtension", "Conjunction"}, S \in SubsetsUpTo(A1, 2)}
             \cup {[k |-> "Inheritance", a |-> u1, b |-> u2] : u1 \in A1, u2 \in A1}
-EqU == HashTwins \cup SameText \cup L1 \cup L2 \cup L3 \cup Big \cup IntU \cup SameKids \cup (IF TIER = "thorough" THEN PairCoverSet(0) ELSE Sample(PairCoverSet(0), 3, SEED))
+EqU == HashTwins \cup SameText \cup L1 \cup L2 \cup L3 \cup Big \cup IntU \cup SameKids \cup Sample(PairCoverSet(0), IF TIER = "thorough" THEN 2 ELSE 3, SEED)
 
 \* near misses: different canonical form, as close as possible
 SetSwap(kd) == CASE kd = "SetExtension" -> "SetIntension" [] kd = "SetIntension" -> "SetExtension" [] kd = "Conjunction" -> "Disjunction"
@@ -95,7 +95,7 @@ Next == \/ /\ mode = "design" /\ mode' = "pair" /\ y' \in BTerms(DEPTH) /\ UNCHA
         \/ /\ mode = "design" /\ mode' = "pair2" /\ x' \in {b \in BTerms(DEPTH) : Canon(b) = Canon(x) \/ b.k = x.k} /\ y' = x
         \/ /\ mode = "seed" /\ mode' = "value" /\ x' \in Part(EqU, x, SEEDS) /\ UNCHANGED y
         \/ /\ mode = "value" /\ mode' = "recipes"
-           /\ \E vv \in (IF TIER = "thorough" THEN {<<1, 2>>, <<2, 3>>, <<3, 4>>, <<4, 1>>, <<3, 3>>, <<1, 3>>, <<2, 4>>, <<4, 2>>, <<1, 1>>}
+           /\ \E vv \in (IF TIER = "thorough" THEN {<<1, 2>>, <<2, 3>>, <<3, 4>>, <<4, 1>>, <<3, 3>>, <<1, 3>>, <<2, 4>>}
                          ELSE {<<1, 2>>, <<2, 3>>, <<3, 4>>, <<4, 1>>, <<3, 3>>}) :
               \E w \in {x} \cup Near(x) : x' = Recipe(x, vv[1]) /\ y' = Recipe(w, vv[2])
 
